@@ -122,7 +122,7 @@ def monitor(case, out):
         return []
     if isinstance(out, list) and len(out) == 2 and out[0] == b'unparsable':
         if out[1].startswith(b'(harness_died'):
-            return []          # a later case of a shard whose process died: the culprit is reported, not these
+            return ['the process serving this history was killed (or had been killed by an earlier history of the same shard)']
         return ['the process serving this history died instead of answering: %s' % out[1][:200].decode('utf-8', 'replace')]
     zero = dict((k, 0) for k in KEYS)
     prev = dict(zero)
